@@ -178,7 +178,9 @@ def run_replay(case):
     events.append(judge("hook/overlap-incoherence", incoh, 1e-10, key + "/hook-incoherence", checks=checks))
     events.append(ev("hook/evaluations-match-history", bool(checks == expected), key=key + "/hook-count", got=checks, expected=expected,
                      hard=(checks == 0)) if checks != 0 else ev("hook/not-reached", None, key="C08/hook-not-reached", hard=True))
-    events.append(judge("replay/block-energies", worst["energy"], 1e-9, key + "/replay-energy"))
+    # finite-difference (AD) trial kinds amplify round-off by 1/eps^2 = 1e8: differently fused but identical arithmetic differs at 1e-9
+    etol = 1e-6 if case["kind"] in ("multislater",) + trials.AD_CI else 1e-9
+    events.append(judge("replay/block-energies", worst["energy"], etol, key + "/replay-energy"))
     events.append(judge("replay/weights", worst["weights"], 1e-9, key + "/replay-weights"))
     events.append(judge("replay/walkers", worst["walkers"], 1e-9, key + "/replay-walkers"))
     return {"events": events, "nontrivial": reordered and case["calls"] >= 2,
